@@ -127,6 +127,7 @@ type Env struct {
 	onApplied func(nd *simNode, idx uint64, ce *committedEntry, snaps []*balloon.Snapshot, err error)
 	// onCrashInApply decides what an escaped panic in Apply means
 	allowPoison bool
+	destroyed   bool
 }
 
 func newEnv(r *Run, n int) *Env {
@@ -141,21 +142,28 @@ func newEnv(r *Run, n int) *Env {
 	e := &Env{r: r, leader: -1, term: 1, pending: map[uint64]*future{}, committed: map[uint64]*committedEntry{},
 		rlog: NewRLog(), eventsAt: map[uint64]uint64{}, issued: map[uint64]*balloon.Snapshot{}, baseDir: base,
 		logger: newSimLogger(), byRN: map[*consensus.RaftNode]*simNode{}}
-	r.OnCleanup(func() {
-		for _, nd := range e.nodes {
-			if nd.up {
-				func() {
-					defer func() { recover() }()
-					e.stopNode(nd, "crash")
-				}()
-			}
-		}
-		os.RemoveAll(base)
-	})
+	r.OnCleanup(e.destroy)
 	for i := 0; i < n; i++ {
 		e.addNode(true)
 	}
 	return e
+}
+
+// destroy stops every node (crash style) and removes the cluster's files.
+func (e *Env) destroy() {
+	if e.destroyed {
+		return
+	}
+	e.destroyed = true
+	for _, nd := range e.nodes {
+		if nd.up {
+			func() {
+				defer func() { recover() }()
+				e.stopNode(nd, "crash")
+			}()
+		}
+	}
+	os.RemoveAll(e.baseDir)
 }
 
 func (e *Env) addNode(inConfig bool) *simNode {
